@@ -940,6 +940,107 @@ Example abort_case_example :
   agree_ab [0;3;1;1;0; 0;1;1;20;0; 0;1; 0;2; 62;28; 0;2; 0] = false.
 Proof. vm_compute. repeat split. Qed.
 
+(* ---- ONE call interrupted at positions k = 0, 1, 2, ... of its execution, compared STEP BY STEP (leading digit 14): the
+   same set-up and the same call are run once per position (source lines, or bytecodes in steps of 2); digit 13 compares
+   each observed state by itself with SOME sub-sequence of the call's acts, here the sequence of observed states must
+   be explained by ONE growing execution: masks m_0 <= m_1 <= ... over the acts (m_k = the acts executed before position
+   k; inclusion, not prefix order, so that the order of the commuting writes is still not compared) with the state at
+   position k that of `select m_k acts`; the stages are ordered too: 0 = (exit only) interrupted where the generator resumes,
+   still inside the try block: the finally clause then runs untraced and restores everything, the exception propagates;
+   1 = interrupted inside the call; 2 = (entry only) interrupted inside the try block, the finally clause ran; 3 = the
+   interruption never came, the call answered.  Positions at which the tracer did not fire although a later one did are
+   left out by the harness.  Decided by forward reachability over the candidate sets. *)
+Fixpoint masks (n : nat) : list (list bool) :=
+  match n with O => [[]] | S n' => map (cons true) (masks n') ++ map (cons false) (masks n') end.
+Fixpoint select {A} (m : list bool) (l : list A) : list A :=
+  match m, l with b :: m', x :: l' => if b then x :: select m' l' else select m' l' | _, _ => [] end.
+Fixpoint subm (a b : list bool) : bool :=
+  match a, b with x :: a', y :: b' => implb x y && subm a' b' | [], [] => true | _, _ => false end.
+
+Definition ccand := (nat * list bool * bst)%type.
+Definition cle (a b : ccand) : bool :=
+  let '(s1, m1, _) := a in let '(s2, m2, _) := b in (s1 <? s2) || ((s1 =? s2) && subm m1 m2).
+
+Definition chain_cands (cf : cfg) (b1 : bst) (o : op) : list ccand :=
+  let acts := acts_of fixed_rules cf b1 o in
+  let n := length acts in
+  match o with Exit_ _ _ => [(0, repeat false n, astep fixed_rules cf b1 (AOp o))] | _ => [] end ++
+  map (fun m => (1, m, bblock cf b1 (thr o, select m acts))) (masks n) ++
+  match o with
+  | Enter t _ _ => [(2, repeat true n, astep fixed_rules cf (astep fixed_rules cf b1 (AOp o)) (AOp (Exit_ t true)))]
+  | _ => []
+  end ++ [(3, repeat true n, astep fixed_rules cf b1 (AOp o))].
+
+Definition cand_matches (tenalg : bool) (ths : list tid) (o : op) (c : ccand) (ob : obs) (xs : list seen) : bool :=
+  let '(stage, _, b) := c in
+  (if stage =? 3 then obs_eqb ob (answer b o) else obs_eqb ob (raise_obs o)) && all_aseen tenalg (to_st b) ths xs.
+
+Fixpoint chain_ok (tenalg : bool) (ths : list tid) (o : op) (cands R : list ccand) (obsl : list (obs * list seen)) : bool :=
+  match obsl with
+  | [] => true
+  | (ob, xs) :: rest =>
+      match filter (fun c => cand_matches tenalg ths o c ob xs && existsb (fun r => cle r c) R) cands with
+      | [] => false
+      | R' => chain_ok tenalg ths o cands R' rest
+      end
+  end.
+
+Definition ccase := (bool * bool * list (tid * inst) * list tid * list op * op * list (obs * list seen))%type.
+
+Definition agree_c (c : ccase) : bool :=
+  let '(tenalg, nf, own0, ths, setup, o, obsl) := c in
+  let cf := cfg_of tenalg in
+  let b1 := run_nl_hist nf nl20 fixed_rules cf (of_st (init (own_of own0))) setup in
+  let cands := chain_cands cf b1 o in
+  match cands with
+  | bottom :: _ => chain_ok tenalg ths o cands [(0, repeat false (length (acts_of fixed_rules cf b1 o)), b1)] obsl
+  | [] => false
+  end.
+
+Fixpoint dec_chain (nth n : nat) (l : list nat) : option (list (obs * list seen)) :=
+  match n with
+  | O => match l with [] => Some [] | _ => None end
+  | S n' => match l with
+            | r :: l' => match dec_seen1 nth l' with
+                         | Some (xs, l2) => match dec_chain nth n' l2 with Some es => Some ((dec_out r, xs) :: es) | None => None end
+                         | None => None
+                         end
+            | [] => None
+            end
+  end.
+
+Definition decode_c (l : list nat) : option ccase :=
+  match l with
+  | ta :: nth :: own :: nf :: ns :: l1 =>
+      match dec_ops ns l1 with
+      | Some (setup, k :: t :: a :: b :: c :: np :: l2) =>
+          match dec_chain nth np l2 with
+          | Some obsl => Some (dec_bool ta, dec_bool nf, if dec_bool own then [(0, Named 0)] else [], seq 0 nth, setup,
+                               dec_op k t a b c, obsl)
+          | None => None
+          end
+      | _ => None
+      end
+  | _ => None
+  end.
+
+Definition agree_ch (l : list nat) : bool := match decode_c l with Some c => agree_c c | None => false end.
+
+(* a non-local set_backend(Obj 1) by thread 1 (acts: slot, name, shared default, answer) interrupted at five positions:
+   nothing yet; the slot; slot and shared default; (the same, exception after the last write); completed.  The same
+   observations with the slot written, then NOT written, then written again are explained position by position (digit 13
+   would accept each) but by no growing execution; neither is a completed call followed by a partial state *)
+Example chain_case_example :
+  let hd := [0;3;1;0;0; 0;1;1;1;0] in
+  let s0 := [1; 0;2; 0;2; 0;2] in let s1 := [1; 0;2; 2;9; 0;2] in let s2 := [1; 0;2; 2;9; 2;9] in
+  let done := [0; 0;2; 2;9; 2;9] in
+  agree_ch (hd ++ [5] ++ s0 ++ s1 ++ s2 ++ s2 ++ done) = true /\
+  agree_ch (hd ++ [3] ++ s0 ++ s0 ++ done) = true /\
+  agree_ch (hd ++ [4] ++ s0 ++ s1 ++ s0 ++ s1) = false /\
+  agree_ch (hd ++ [3] ++ s1 ++ done ++ s2) = false /\
+  agree_ch (hd ++ [2] ++ s0 ++ [1; 0;2; 0;2; 2;9]) = false.
+Proof. vm_compute. repeat split. Qed.
+
 Definition agree (c : case) : bool :=
   match digits (snd c) with
   | 3 :: l => match decode_m l with Some m => agree_m m | None => false end
@@ -953,6 +1054,7 @@ Definition agree (c : case) : bool :=
   | 11 :: l => agree_dn l
   | 12 :: l => agree_w l
   | 13 :: l => agree_ab l
+  | 14 :: l => agree_ch l
   | _ => agree_hist (snd c)
   end.
 
